@@ -77,6 +77,15 @@ def tasks(tier):
         cfg = dict(M=4, per_class=pc, max_unknown=mu, alphabet=["ok", "x:U", "x:T", "r:U"],
                    sleeper="policy")
         out.append({"family": "permit-sugar", "cfg": cfg, "entry": e, "bound": 0})
+    # an abort predicate that answers with a truthy value other than True (a count, numpy.bool_)
+    for mode, e in itertools.product(["answer", "flag"], Q4 + ["Policy.call", "RetryPolicy.execute"]):
+        cfg = dict(M=3, alphabet=["ok", "x:T", "r:T"], abort=True, abort_mode=mode, abort_truthy=True,
+                   max_unknown=None, budget={"max": 2, "window": 8})
+        out.append({"family": "permit-abort-truthy", "cfg": cfg, "entry": e, "bound": 1})
+    # concurrent.futures.CancelledError is an ordinary Exception: a classified, retryable failure
+    for e in Q4 + ["Policy.call", "Policy.execute"]:
+        cfg = dict(M=3, alphabet=["ok", "xcf:T", "xcf:P", "x:T"], max_unknown=None)
+        out.append({"family": "permit-futures-cancelled", "cfg": cfg, "entry": e, "bound": 0})
     # a Retry-After hint longer than the time left while the designated strategy's delay fits: the
     # hint is advice for the strategy, not a stop condition
     for e in Q4:
